@@ -307,6 +307,20 @@ pub fn gen_c02(rng: &mut Rng, tier: Tier) -> MsgScn {
         c.faults.push(Fault::ByzPayload { edit: PayloadEdit::SetClaim("iss".into(), json!(claimed)), key: iss[0].key.clone(), alg: i0_alg.clone() });
         cases.push(c);
     }
+    // an attacker signs with its own key and names itself by a self-certifying identifier that
+    // carries that very key (did:jwk, a data: URL, a bare JWK): the directory does not know it
+    for atk in ["edC", "ecD"] {
+        let jwk = crate::keys::jwk_value(atk).to_string();
+        let b64 = crate::model::b64e(jwk.as_bytes());
+        for claimed in [format!("did:jwk:{}", b64), format!("did:jwk:{}#0", b64), format!("data:application/jwk+json;base64,{}", b64), jwk.clone()] {
+            if !rng.chance(1, 2) {
+                continue;
+            }
+            let mut c = plain(if rng.bool() { Base::Cred(0) } else { Base::Pres(0) }, rand_fmt(rng));
+            c.faults.push(Fault::ByzPayload { edit: PayloadEdit::SetClaim("iss".into(), json!(claimed)), key: atk.to_string(), alg: crate::keys::alg_of(atk).to_string() });
+            cases.push(c);
+        }
+    }
     let main = if rng.bool() { Base::Pres(0) } else { Base::Cred(0) };
     // enumerated single-character faults
     let (hs, ps) = match tier {
@@ -357,6 +371,7 @@ pub fn gen_c02(rng: &mut Rng, tier: Tier) -> MsgScn {
                         form: *rng.pick(&[PubForm::Pem, PubForm::Der, PubForm::Raw, PubForm::Raw]),
                         hs: rng.pick(&["HS256", "HS256", "HS384", "HS512"]).to_string(),
                     },
+                    6 if rng.bool() => AlgMode::ResignEmbedJwk(rng.pick(&["ecD", "edC", "ecB", "edA"]).to_string()),
                     6 => AlgMode::Relabel(rng.pick(&["HS256", "EdDSA", "ES256", "ES384", "RS256", "PS256", "HS512"]).to_string()),
                     _ => AlgMode::ResignOtherFamily(rng.pick(&["ecD", "edC", "hsB", "ecB", "edA"]).to_string()),
                 };
